@@ -177,9 +177,15 @@ def r16_2(run, model):
     def if_returns_err(fn_, pred, what, witness):
         hit = None
         # the test may sit in a private helper of fn_ (same file, one level): the obligation stays fn_'s
-        for iff in [i_ for g_ in model.scope_fns(fn_) if g_.body is not None for i_ in S.find(g_.body, "If")]:
+        for g_, iff in [(g_, i_) for g_ in model.scope_fns(fn_) if g_.body is not None for i_ in S.find(g_.body, "If")]:
             txt = S.norm_ws(run.facts.text(fn_.file, iff["cond"]["sp"]))
-            if pred(txt):
+            # a condition named by a boolean local (`let declares_requested_name = package.name == package_name; if !declares_requested_name`)
+            # is the condition: `!(a==b)` is read as `a!=b`
+            txt1 = S.text_with_locals(run.facts, fn_.file, iff["cond"], g_.body, 1).replace(" ", "")
+            mneg = re.fullmatch(r"!\(([^()&|]+)==([^()&|]+)\)", txt1)
+            if mneg:
+                txt1 = f"{mneg.group(1)}!={mneg.group(2)}"
+            if pred(txt) or pred(txt1):
                 rets = [r for r in S.find(iff["then"], "Return") if r.get("expr") and r["expr"]["k"] == "Call" and S.callee_name(r["expr"]) == "Err"]
                 hit = bool(rets)
                 if hit:
@@ -219,8 +225,13 @@ def r16_2(run, model):
                 if arm.get("guard") is not None:
                     tests.append((arm["guard"], arm["body"], arm, mt))
         for cond_n, taken, iff, mt in tests:
-            txt = S.text_with_locals(run.facts, PK, cond_n, lp.body)
-            m = re.search(r"package\.0\)?!=&?([A-Za-z_]+)|([A-Za-z_]+)!=\(?&?ast\.package\.0", txt)
+            # (one level of named operands: `declared` is `&ast.package.0`; `ast` itself stays the parsed file)
+            m = None
+            for depth_ in (1, 2, 0):
+                txt = S.text_with_locals(run.facts, PK, cond_n, lp.body, depth_) if depth_ else S.norm_ws(run.facts.text(PK, cond_n["sp"]))
+                m = re.search(r"package\.0\)?!=&?([A-Za-z_]+)|([A-Za-z_]+)!=\(?&?ast\.package\.0", txt)
+                if m:
+                    break
             if not m:
                 continue
             rets = [r for r in S.find(taken, "Return")]
